@@ -115,6 +115,16 @@ def run_shard(rec):
         ('longest', ('seq', [('opt', ('str', 'ab')), ('longest', [('backtrack', 2), ('backtrack', 1), ('str', 'b')]), REST])),
         ('left', ('seq', [('opt', ('str', 'a')), ('left', ('str', 'b'), ('backtrack', 2)), REST])),
         ('rule', ('seq', [('opt', ('str', 'a')), ('ref', 'Back'), REST])),
+        # Backtrack inside the operand of ? / * / {m,n} / a list, next to literals: the operand matches
+        # on less input than its literals add up to, also right at the end of the input
+        ('in-opt', ('seq', [('str', 'a'), ('opt', ('right', ('backtrack', 1), ('str', 'ab'))), REST])),
+        ('in-opt-seq', ('seq', [('opt', ('seq', [('str', 'a'), ('backtrack', 1), ('str', 'ab')])), REST])),
+        ('in-star', ('seq', [('star', ('seq', [('str', 'ab'), ('backtrack', 1), ('str', 'b')])), REST])),
+        ('in-rep', ('seq', [('rep', ('seq', [('str', 'ab'), ('backtrack', 1)]), 0, 2), REST])),
+        ('in-plus', ('seq', [('opt', ('plus', ('seq', [('str', 'aa'), ('backtrack', 1)]))), REST])),
+        ('in-sep', ('seq', [('sep', ('seq', [('str', 'ab'), ('backtrack', 1)]), ('str', 'b'), {'allow_trailer': True, '_op': '/?'}), REST])),
+        ('in-opt-alt', ('seq', [('str', 'b'), ('opt', ('alt', [('seq', [('backtrack', 1), ('str', 'bab')]), ('seq', [('backtrack', 1), ('str', 'ba')])])), REST])),
+        ('in-opt-longest', ('seq', [('str', 'a'), ('opt', ('longest', [('seq', [('backtrack', 1), ('str', 'aab')]), ('seq', [('backtrack', 1), ('str', 'ab')])])), REST])),
     ]
     for btag, x in BT:
         idx += 1
